@@ -249,7 +249,7 @@ func TestLogOpMsgpack(t *testing.T) {
 	leg := ev.L("logop-msgpack", rulePin+"; wrapped in a raft.LogOp of type pin/unpin")
 	rapid.Check(t, func(t *rapid.T) {
 		p := drawPin(t, leg)
-		op := &raft.LogOp{Cid: p, Type: raft.LogOpType(rapid.IntRange(1, 2).Draw(t, "optype")), TagCtx: rapid.SliceOfN(rapid.Byte(), 0, 5).Draw(t, "tag")}
+		op := &raft.LogOp{Cid: p, Type: rapid.SampledFrom([]raft.LogOpType{raft.LogOpPin, raft.LogOpUnpin}).Draw(t, "optype"), TagCtx: rapid.SliceOfN(rapid.Byte(), 0, 5).Draw(t, "tag")}
 		want := cmpx.Canon(op)
 		b, err := mpEncode(op)
 		if err != nil {
@@ -263,6 +263,46 @@ func TestLogOpMsgpack(t *testing.T) {
 			t.Fatalf("LogOp round-trip: %s", cmpx.Diff(want, got))
 		}
 		leg.Case(want, optionalFields(p) >= 2, pinClasses(p)...)
+	})
+}
+
+// The Raft FSM (go-libp2p-raft) decodes every committed entry onto one
+// long-lived LogOp value, whose pin LogOp.ApplyTo detaches after use: a
+// sequence of operations decoded that way must come out as it went in.
+func TestLogOpSequence(t *testing.T) {
+	leg := ev.L("logop-sequence", rulePin+"; 2-5 raft.LogOp values (pin or unpin) encoded one by one and decoded, in order, onto the same LogOp variable with its pin detached between entries (as the Raft FSM does); every decoded entry must equal the encoded one; non-trivial = an unpin followed by a pin, or a pin with >= 2 optional fields followed by a bare one")
+	rapid.Check(t, func(t *rapid.T) {
+		n := rapid.IntRange(2, 5).Draw(t, "n")
+		var reused raft.LogOp
+		var desc []string
+		nontrivial := false
+		prevUnpin, prevRich := false, false
+		for i := 0; i < n; i++ {
+			p := drawPin(t, leg)
+			if rapid.IntRange(0, 2).Draw(t, "bare") == 0 {
+				p = api.PinCid(p.Cid)
+			}
+			ty := rapid.SampledFrom([]raft.LogOpType{raft.LogOpPin, raft.LogOpUnpin}).Draw(t, "optype") // by name: the wire values are the code's business
+			op := &raft.LogOp{Cid: p, Type: ty}
+			want := cmpx.Canon(op)
+			b, err := mpEncode(op)
+			if err != nil {
+				t.Fatalf("encode: %v", err)
+			}
+			if err := mpDecode(b, &reused); err != nil {
+				t.Fatalf("entry %d: decode onto the reused LogOp fails: %v", i, err)
+			}
+			if got := cmpx.Canon(&reused); got != want {
+				t.Fatalf("entry %d of the sequence, decoded onto the LogOp that held entry %d, differs from what was encoded: %s\nsequence so far: %v", i, i-1, cmpx.Diff(want, got), desc)
+			}
+			if (prevUnpin && ty == raft.LogOpPin) || (prevRich && optionalFields(p) == 0) {
+				nontrivial = true
+			}
+			prevUnpin, prevRich = ty == raft.LogOpUnpin, optionalFields(p) >= 2
+			desc = append(desc, want)
+			reused.Cid = nil // what ApplyTo does once it has taken the pin
+		}
+		leg.Case(strings.Join(desc, " ; "), nontrivial)
 	})
 }
 
